@@ -142,7 +142,12 @@ impl Prop for Seqs {
         let mut shape = HistoryShape::default_for(tier);
         shape.steps = 4..=tier.pick(26, 44);
         shape.ops_per_txn = 2;
-        history_strategy(Profile::sequences_unique(), shape, false)
+        let mut p = Profile::sequences_unique();
+        // embeds (JSON values and shared types) are sequence elements of a text as well: they have no
+        // identity of their own here, but the placement model counts and removes them
+        p.embed = 1;
+        p.embed_nested = true;
+        history_strategy(p, shape, false)
     }
 
     fn check(&self, case: &History, st: &mut CaseStats) -> Result<(), Fail> {
